@@ -5,7 +5,7 @@
    implementation's solution is CHECKED against them exactly (in Q) by the correspondence run. *)
 From Coq Require Import List Reals QArith.
 From FDAV Require Import Base.Num Base.Vec Model.Basis Model.Pspline
-  Lemmas.Vec Lemmas.Gram Lemmas.Pspline.
+  Lemmas.Vec Lemmas.Gram Lemmas.Pspline Lemmas.PsplineConst.
 Import ListNotations.
 Local Open Scope R_scope.
 
@@ -73,9 +73,29 @@ Theorem C05_diff_annihilates_quadratic : forall a b c n,
   diffn opsR 3 (map (fun j => a + b * INR j + c * (INR j * INR j)) (seq 0 (S (S (S n))))) = map (fun _ => 0) (seq 0 n).
 Proof. exact diff_annihilates_quadratic. Qed.
 Print Assumptions C05_diff_annihilates_quadratic.
-(* C05_poly_reproduction_partial: "every polynomial of degree < order is reproduced" additionally needs
+(* C05_poly_reproduction_partial: "every polynomial of degree < order is reproduced" is proved END TO END for
+   degree 0 (constants, any penalty order >= 1: C05_constants_reproduced below, on the very design and
+   penalty matrices the correspondence check executes, 1-D).  For degrees 1 and 2 it additionally needs
    Marsden's identity (polynomials lie in the spline space with polynomial coefficient sequences) and the
    identification of [diffmat] with [diffn]; NOT proved — monitored on the implementation. *)
+Theorem C05_difference_penalty_annihilates_constants : forall c nb d,
+  mv opsR (diffmat opsR nb (S d)) (repeat c nb) = zeros opsR (length (diffmat opsR nb (S d))).
+Proof. exact diffmat_const. Qed.
+Print Assumptions C05_difference_penalty_annihilates_constants.
+Theorem C05_design_of_constant_coefficients : forall a b nseg p, a < b -> (0 < nseg)%nat -> (1 <= p)%nat ->
+  forall c xs, Forall (fun x => a <= x <= b) xs ->
+  mv opsR (design a b nseg p xs) (repeat c (nseg + p)) = repeat c (length xs).
+Proof. exact design_const. Qed.
+Print Assumptions C05_design_of_constant_coefficients.
+Theorem C05_constants_reproduced : forall a b nseg p, a < b -> (0 < nseg)%nat -> (1 <= p)%nat ->
+  forall c lam d w xs beta k, Forall (fun x => a <= x <= b) xs ->
+  length beta = (nseg + p)%nat -> Forall (fun v => 0 <= v) w -> 0 <= lam ->
+  Aop opsR (nseg + p) (design a b nseg p xs) w (pens1 opsR (nseg + p) (S d) lam) beta
+    = rhs opsR (nseg + p) (design a b nseg p xs) w (repeat c (length xs)) ->
+  (k < length xs)%nat -> (k < length w)%nat -> 0 < nth k w 0 ->
+  nth k (fitted opsR (design a b nseg p xs) beta) 0 = c.
+Proof. exact constants_reproduced. Qed.
+Print Assumptions C05_constants_reproduced.
 
 (* leverages lie in [0,1] *)
 Theorem C05_leverage_in_unit_interval : forall nb B w pens i z, wfB nb B -> wfP nb pens -> length z = nb ->
